@@ -56,7 +56,7 @@ def stub_events(tier: str, rng: random.Random) -> list[dict]:
             sel.append(min(ranks[i] for i in hit) if hit else -7)
         evs.append({"e": "select", "cls": "stub", "bs": bs, "preds": ranks, "sel": sel, "fitsame": seen["fit"] == sh.sha(kp, kl),
                     "predictsame": True, "seed": 0, "kw": {"scores": list(scores)}})
-        evs.append({"e": "sample", "cls": "stub", "bs": bs, "g": [1000, 1000], "rem": [0, 0], "rows": int(out.shape[0]), "cols": int(out.shape[1]),
+        evs.append({"e": "sample", "cls": "stub", "bs": bs, "g": [1000, 1000], "rem": [0, 0], "rows": int(out.shape[0]), "cols": int(out.shape[1]), "inbounds": True,
                     "idx": sh.to_units(out, space.param_grid), "histsame": bool(np.array_equal(kp, pts) and np.array_equal(kl, los)),
                     "call": 0, "kw": {}, "bounds": [[0, 0], [999, 999]], "prec": [1, 1], "seed": 0})
     return evs
